@@ -22,6 +22,13 @@ def make(world, plan, res):
 
 
 def records(w) -> dict[str, list[tuple[str, int, float, str]]]:
+    snap = getattr(w, "final_records", None)
+    if snap is not None:
+        return snap         # taken just before the harness's final Stop (Stop resets the interpreter and its records)
+    return live_records(w)
+
+
+def live_records(w) -> dict[str, list[tuple[str, int, float, str]]]:
     out: dict[str, list[tuple[str, int, float, str]]] = {}
     for r in w.engine.interpreter.runtimeinfo.records:
         out[r.node_id] = [(str(st.state_name), st.state_tick, st.state_time, st.instance_id) for st in r.states]
@@ -320,18 +327,48 @@ class C02Order(Oracle):
                 if a.token in first and b.token in first and first[b.token] < first[a.token]:
                     self.v("C02", "C02.siblings_out_of_order", n.kind,
                            f"{b.text.strip()!r} took effect before its earlier sibling {a.text.strip()!r}")
+        # an instruction (in particular a macro call, block or interrupt) completes only after it started
+        nodes = {n.id: n for n in self.tree.walk()}
+        for nid, states in records(w).items():
+            n = nodes.get(nid)
+            if n is None or n.kind not in ("Call macro", "Block"):
+                continue        # the clause names the enclosing block or macro call; Watch/Alarm have two log items
+            per: dict[str, list[str]] = {}
+            for (name, tick, t, inst) in states:
+                per.setdefault(inst, []).append(name)
+            for inst, names in per.items():
+                if "completed" in names and "started" not in names and "cancelled" not in names and "failed" not in names:
+                    ctx = ""
+                    if n.kind == "Call macro":
+                        # another call of the same macro under way at the same time (two interrupts)?
+                        mine = [(tk) for (nm, tk, t, i2) in states if i2 == inst]
+                        lo, hi = min(mine), max(mine)
+                        for oid, ost in records(w).items():
+                            on = nodes.get(oid)
+                            if on is None or on is n or on.kind != "Call macro" or on.arg != n.arg:
+                                continue
+                            ticks = [tk for (nm, tk, t, i2) in ost]
+                            done = [tk for (nm, tk, t, i2) in ost if nm == "completed"]
+                            if ticks and min(ticks) <= hi and (not done or max(done) >= lo):
+                                ctx = "@concurrent_calls_of_one_macro"
+                    self.v("C02", "C02.completed_without_having_started" + ctx, n.kind,
+                           f"{n.text.strip()!r} ({nid}) has an invocation that completed without ever starting: {names}")
         # trailing whitespace of a scope is never passed
-        ms = w.method_state()
+        ms = getattr(w, "final_method_state", None) or w.method_state()
         passed = set(ms.started_line_ids) | set(ms.executed_line_ids)
+        last_ws_ids = set()
+        for lid, content in reversed(self.plan["method"]):
+            if content.strip() == "" or content.strip().startswith("#"):
+                last_ws_ids.add(lid)
+            else:
+                break
         for n in self.tree.walk():
-            trailing = []
-            for c in reversed(n.children):
-                if c.is_ws:
-                    trailing.append(c)
-                else:
-                    break
+            trailing = [c for c in n.children if c.id in last_ws_ids]     # whitespace at the physical end of the method
+            has_instruction = any(not x.is_ws for x in self.tree.walk() if x.kind != "root")
             for c in trailing:
-                if c.id in passed and n.kind == "root":
+                # (a method that consists of whitespace only is outside the clause: what matters there is that appended
+                # lines still run, which C01 checks)
+                if c.id in passed and n.kind == "root" and has_instruction:
                     self.v("C02", "C02.trailing_whitespace_passed", c.kind,
                            f"trailing {c.kind} line {c.id} of the method is reported started/executed")
         # reference walk (fragment)
@@ -470,21 +507,24 @@ class C03Thresholds(Oracle):
         # Wait durations (exact 0.1 s ticks, main path, no pause/hold/error overlap)
         for nid, states in recs.items():
             n = self.nodes.get(nid)
-            if n is None or n.kind != "Wait" or in_repeating_scope(n) or any(a.kind == "Watch" for a in n.ancestors()):
+            if n is None or n.kind != "Wait" or in_repeating_scope(n) or any(a.kind == "Watch" for a in n.ancestors()) \
+                    or n.threshold is not None:
                 continue
             m = re.match(r"^([0-9.]+)\s*(s|min|h)$", n.arg.strip())
-            st = [s for s in states if s[0] == "started"]
+            st = states[:1]          # run-log start time = time of the first recorded state of the invocation
             if not m or not st or any(s[0] == "forced" for s in states):
                 continue
             d = float(m.group(1)) * self.UNIT[m.group(2)]
-            sibs = [c for c in n.parent.children if not c.is_ws]
+            sibs = list(n.parent.children)       # whitespace lines between cost ticks of their own: only direct neighbours
             i = sibs.index(n)
+            if i + 1 < len(sibs) and sibs[i + 1].is_ws:
+                continue
             if i + 1 >= len(sibs):
                 continue
             nxt = recs.get(sibs[i + 1].id)
             if not nxt:
                 continue
-            nst = [s for s in nxt if s[0] == "started"]
+            nst = nxt[:1]
             if not nst or sibs[i + 1].threshold is not None or sibs[i + 1].kind in ("Block", "Watch", "Alarm", "Macro"):
                 continue
             t0, t1 = st[0][2], nst[0][2]
@@ -492,7 +532,9 @@ class C03Thresholds(Oracle):
             if t1 - t0 < d - 1e-6:
                 self.v("C03", "C03.wait_too_short", "Wait",
                        f"{n.text.strip()!r} started {t0:.3f}, next instruction started {t1:.3f}: {t1 - t0:.3f} s < {d} s")
-            elif not any(t in self.disturbed_ticks for t in range(k0 - 1, k1 + 1)) and t1 - t0 > d + 0.1 + 1e-6:
+            elif not any(t in self.disturbed_ticks for t in range(k0 - 1, k1 + 1)) and t1 - t0 > d + 0.2 + 1e-6:
+                # one tick interval, plus one more because tick times are binary floats: a Wait whose end falls exactly
+                # on a tick boundary may see tick_time a few ulp below it and take one more tick
                 self.v("C03", "C03.wait_too_long", "Wait",
                        f"{n.text.strip()!r}: next instruction started {t1 - t0:.3f} s after the Wait started (d={d})")
             else:
@@ -577,9 +619,8 @@ class C04Interrupts(Oracle):
             for a in acts:
                 # the deciding evaluation happened in tick a or the one before (activation is entered the next tick)
                 trues = self.cond_true_ticks[n.id]
-                ok = any(t in trues for t in (a, a - 1, a - 2)) or n.id in self.forced
-                if c[0] in ("Run Time", "Block Time"):
-                    ok = ok or any(t in trues for t in (a + 1,))   # the clock is read before this tick's update
+                # the statement: "only after a tick in which its condition evaluated true" (any earlier tick)
+                ok = any(t <= a for t in trues) or n.id in self.forced
                 if not ok and not any(r[1] == "force" for r in w.requests):
                     self.v("C04", "C04.body_ran_without_condition", n.kind,
                            f"{n.kind} {n.arg!r} activated in tick {a}; the harness saw the condition true only in ticks "
